@@ -24,9 +24,101 @@ import (
 
 type c30Trace struct {
 	blocks map[string]*ssa.BasicBlock
+	// deferred calls registered by the walker that executed the defer
+	// statement; they run when that function returns (see runDefers)
+	defers map[*pathWalker][]*ssa.Defer
 }
 
-func newC30Trace() *c30Trace { return &c30Trace{blocks: map[string]*ssa.BasicBlock{}} }
+func newC30Trace() *c30Trace {
+	return &c30Trace{blocks: map[string]*ssa.BasicBlock{}, defers: map[*pathWalker][]*ssa.Defer{}}
+}
+
+// c30OnCall installs the rule's call classifier. A defer statement is not a
+// call at that point: it is remembered and interpreted when the function that
+// executed it returns.
+func c30OnCall(w *pathWalker, tr *c30Trace, rule func(w *pathWalker, ci ssa.CallInstruction) string) {
+	w.onCall = func(w *pathWalker, ci ssa.CallInstruction) string {
+		if d, ok := ci.(*ssa.Defer); ok {
+			tr.defers[w] = append(tr.defers[w], d)
+			return ""
+		}
+		if rule == nil {
+			return ""
+		}
+		return rule(w, ci)
+	}
+}
+
+// runDefers interprets, last first, the deferred calls w registered: functions
+// of the package (and closures) in place, others through the call classifier.
+func (t *c30Trace) runDefers(w *pathWalker) {
+	ds := t.defers[w]
+	delete(t.defers, w)
+	for i := len(ds) - 1; i >= 0; i-- {
+		d := ds[i]
+		callee := d.Call.StaticCallee()
+		synth := &ssa.Call{Call: d.Call}
+		if callee == nil || len(callee.Blocks) == 0 || callee.Pkg == nil || (w.rootPkg != nil && callee.Pkg != w.rootPkg) || w.depth >= 4 {
+			if w.onCall != nil {
+				if ev := w.onCall(w, synth); ev != "" {
+					w.events = append(w.events, ev)
+				}
+			}
+			continue
+		}
+		if end := w.inlineCall(synth, callee); end != "return" {
+			w.events = append(w.events, "!defer: deferred "+callee.Name()+" ended "+end+" "+w.why)
+		}
+	}
+}
+
+// c30Run walks f from its entry and runs f's own deferred calls at the end.
+func c30Run(w *pathWalker, tr *c30Trace, f *ssa.Function) string {
+	if w.rootPkg == nil {
+		w.rootPkg = f.Pkg
+	}
+	end := w.walk(f.Blocks[0], nil)
+	if end == "return" || end == "panic" {
+		tr.runDefers(w)
+	}
+	if ev, bad := c30HasEvent(w, "!defer:"); bad && (end == "return" || end == "panic") {
+		w.why = strings.TrimPrefix(ev, "!defer: ")
+		return "undecided"
+	}
+	return end
+}
+
+func c30CellKey(al ssa.Value) string { return fmt.Sprintf("#cell%p", al) }
+
+// c30Cell: v is the address of a local cell: an Alloc, or (inside a closure) the
+// free variable bound to the enclosing function's Alloc.
+func c30Cell(v ssa.Value) (ssa.Value, bool) {
+	switch v.(type) {
+	case *ssa.Alloc, *ssa.FreeVar:
+		return v, true
+	}
+	return nil, false
+}
+
+// c30ClosureCells: the (free variable, captured cell) pairs of closure fn.
+func c30ClosureCells(fn *ssa.Function, f func(fv *ssa.FreeVar, cell *ssa.Alloc)) {
+	if fn.Parent() == nil {
+		return
+	}
+	allInstrs(fn.Parent(), func(in ssa.Instruction) {
+		mc, ok := in.(*ssa.MakeClosure)
+		if !ok || mc.Fn != ssa.Value(fn) {
+			return
+		}
+		for i, fv := range fn.FreeVars {
+			if i < len(mc.Bindings) {
+				if al, ok := mc.Bindings[i].(*ssa.Alloc); ok {
+					f(fv, al)
+				}
+			}
+		}
+	})
+}
 
 func (t *c30Trace) note(w *pathWalker, b *ssa.BasicBlock) {
 	k := fmt.Sprintf("@%p", b)
@@ -102,14 +194,86 @@ func c30Walker(f *ssa.Function, tr *c30Trace, opaque map[string]bool, perFunc fu
 				}
 			}
 		}
+		// a closure sees its enclosing function's tracked state under the same
+		// names (captured variables render by name)
+		if callee.Parent() != nil {
+			for k, v := range parent.state {
+				child.state[k] = v
+			}
+			c30ClosureCells(callee, func(fv *ssa.FreeVar, cell *ssa.Alloc) {
+				if v, ok := parent.state[c30CellKey(cell)]; ok {
+					child.state[c30CellKey(fv)] = v
+				}
+				if o, ok := parent.off[cell]; ok {
+					parent.off[fv] = o
+				}
+				if tg, ok := parent.cls[cell]; ok {
+					parent.cls[fv] = tg
+				}
+			})
+		}
 		if perFunc != nil {
 			perFunc(child, callee)
 		}
 	}
 	w.onReturn = func(parent, child *pathWalker, call *ssa.Call, results []ssa.Value) {
+		// the callee's deferred calls run now; their effects on tracked state
+		// reached through pointer arguments are the caller's
+		if len(tr.defers[child]) > 0 {
+			n0 := len(child.events)
+			tr.runDefers(child)
+			parent.events = append(parent.events, child.events[n0:]...)
+			if callee := call.Call.StaticCallee(); callee != nil {
+				for i, p := range callee.Params {
+					if i >= len(call.Call.Args) {
+						break
+					}
+					if pp := parent.path(call.Call.Args[i]); pp != "" {
+						for k, v := range child.state {
+							if strings.HasPrefix(k, p.Name()+".") || strings.HasPrefix(k, p.Name()+"[") {
+								parent.state[pp+k[len(p.Name()):]] = v
+							}
+						}
+					}
+				}
+			}
+		}
+		if callee := call.Call.StaticCallee(); callee != nil && callee.Parent() != nil {
+			for k, v := range child.state {
+				if !strings.HasPrefix(k, "#cell") {
+					parent.state[k] = v
+				}
+			}
+			c30ClosureCells(callee, func(fv *ssa.FreeVar, cell *ssa.Alloc) {
+				if v, ok := child.state[c30CellKey(fv)]; ok {
+					parent.state[c30CellKey(cell)] = v
+				} else {
+					delete(parent.state, c30CellKey(cell))
+				}
+			})
+		}
 		if len(results) == 1 {
 			if tg := c30Tag(child, results[0]); tg != "" {
 				parent.cls[call] = tg
+			}
+		}
+		// tags of the components of a tuple result follow to the extracts
+		if len(results) > 1 && call.Referrers() != nil {
+			for _, r := range *call.Referrers() {
+				ex, ok := r.(*ssa.Extract)
+				if !ok || ex.Index >= len(results) {
+					continue
+				}
+				if o, ok := child.off[results[ex.Index]]; ok {
+					parent.off[ex] = o
+				} else {
+					delete(parent.off, ex)
+				}
+				if tg := c30Tag(child, results[ex.Index]); tg != "" {
+					parent.cls[ex] = tg
+				} else {
+					delete(parent.cls, ex)
+				}
 			}
 		}
 	}
@@ -125,8 +289,45 @@ func c30Walker(f *ssa.Function, tr *c30Trace, opaque map[string]bool, perFunc fu
 			delete(w.off, ph)
 		}
 	}
+	c30OnCall(w, tr, nil)
+	// local cells (results spilled because of a defer, address-taken locals):
+	// value, packet tag and role tag are forwarded from the store to the loads
+	w.onStore = func(w *pathWalker, st *ssa.Store) string {
+		al, ok := c30Cell(st.Addr)
+		if !ok {
+			return ""
+		}
+		if n, ok := w.env.eval(st.Val); ok {
+			w.state[c30CellKey(al)] = n
+		} else {
+			delete(w.state, c30CellKey(al))
+		}
+		if o, ok := w.off[st.Val]; ok {
+			w.off[al] = o
+		} else {
+			delete(w.off, al)
+		}
+		if tg := c30Tag(w, st.Val); tg != "" {
+			w.cls[al] = tg
+		} else if cur, has := w.cls[al]; has && cur != "peer" {
+			delete(w.cls, al)
+		}
+		return ""
+	}
 	// first byte of the tagged packet
 	w.onLoad = func(w *pathWalker, u *ssa.UnOp) (int64, bool) {
+		if al, ok := c30Cell(u.X); ok {
+			if o, ok := w.off[al]; ok {
+				w.off[u] = o
+			} else {
+				delete(w.off, u)
+			}
+			n, ok := w.state[c30CellKey(al)]
+			if !ok {
+				delete(w.env.vals, u)
+			}
+			return n, ok
+		}
 		ia, ok := u.X.(*ssa.IndexAddr)
 		if !ok {
 			return 0, false
@@ -310,6 +511,10 @@ func c30ErrVal(w *pathWalker, i int) (int64, bool) {
 		return 0, false
 	}
 	v := r.Results[i]
+	// results spilled because of a defer: the value stored before the return
+	if sv := retVal(r, i); sv != nil {
+		v = sv
+	}
 	if isNilConst(v) {
 		return 0, true
 	}
